@@ -544,6 +544,9 @@ class RtrEngine(object):
         W = max([x for x, _y in tables_a] + [t.draw(2)]) + 1
         H = max([y for _x, y in tables_a] + [0]) + 1
         m = self.m = c.build_machine(width=W, height=H)
+        if t.draw(3) == 0:
+            m.vary_layout()
+            w.probe("per_chip_layout")
         self.inject_fail = False
         m.alloc_fail_hook = lambda chip, what, n: (what == "rtr" and
                                                    self.inject_fail)
